@@ -47,12 +47,19 @@ def utilisation(tier, seed, binaries):
     per = {}
     slots = 0
     a0 = 0
+    prtt = 0
+    prtt_dwell = 0
     try:
         for ln in open(path):
             if ln.startswith("note clean-path"):
                 m = re.search(r"profile=(\w+).*delivered/capacity=([0-9.]+)", ln)
                 if m:
                     per.setdefault(m.group(1), []).append(float(m.group(2)))
+            elif ln.startswith("note probe-rtt entered"):
+                prtt += 1
+                m = re.search(r"max-dwell=(\d+)ms", ln)
+                if m:
+                    prtt_dwell = max(prtt_dwell, int(m.group(1)))
             elif ln.startswith("note trace-end"):
                 m = re.search(r"slots-max=(\d+) a0-max=(\d+)", ln)
                 if m:
@@ -64,11 +71,15 @@ def utilisation(tier, seed, binaries):
                                         "(a float-driven performance figure: NO theorem is offered for it)",
             "per_profile": {p: {"traces": len(v), "min": round(min(v), 3), "median": round(sorted(v)[len(v) // 2], 3)}
                             for p, v in sorted(per.items())},
+            "stall_oracle (no theorem)": "on loss-free fixed-capacity traces: (a) never in PROBE_RTT longer than 10 x (200 ms + RTT + "
+                                         "ack-aggregation period + 25 ms), (b) delivered/capacity >= 0.3 over a long window after start-up, "
+                                         "(c) a sender with data and nothing in flight can always send",
+            "traces_that_entered_PROBE_RTT": prtt, "max_PROBE_RTT_dwell_ms": prtt_dwell,
             "max_sampler_slots_in_use": slots, "max_a0_candidates (measured, not bounded by a theorem)": a0}
     return [], [], info
 
 
-_BBR_N = {"quick": 560000, "thorough": 2000000}
+_BBR_N = {"quick": 400000, "thorough": 2000000}
 
 CFG = {
     "props_module": "Hy.Props.C12",
@@ -81,6 +92,10 @@ CFG = {
         {"mod": "core", "component": "pnq", "driver": "pnq", "reset_re": "^reset",
          "n": {"quick": 10000, "thorough": 400000}},
         {"mod": "core", "component": "bbr", "driver": "bbr", "reset_re": "^new", "n": _BBR_N},
+        # long fat loss-free paths (window reaches the 20000-packet cap): control logic replayed with RECORDED
+        # sampler outputs (driver bbrcore) — the list-backed queue model would be slow with 20000 packets in flight
+        {"mod": "core", "component": "bbrfat", "driver": "bbrcore", "reset_re": "^new",
+         "n": {"quick": 90000, "thorough": 900000}},
     ] + [
         # thorough tier: 20 x 1000 traces with different seeds (each chunk's files are overwritten by the next)
         {"mod": "core", "component": "bbr", "driver": "bbr", "reset_re": "^new", "seed_add": 1000 * k,
@@ -100,15 +115,22 @@ CFG = {
     "trusted_base": [
         "Hy.Model.Ring / Hy.Model.Pnq are tied to ringbuffer.go / packet_number_indexed_queue.go by an exact differential on "
         "the raw representation (backing slice, headPos, tailPos, full, numberOfPresentEntries, firstPacket) after every op",
-        "Hy.Model.BbrCore is tied to bbr_sender.go by trace validation: per call the harness records what the real "
-        "bandwidthSampler returned (by running the real OnCongestionEvent on a copy of the sampler taken just before the call), "
-        "the filter's best bandwidth, rttStats.MinRTT() and the float-scaled values (getTargetCongestionWindow(gain) via the real "
-        "method; gain*bw, bw*1.25, inflight*0.02 and the float->int64 conversion of the pacing rate by the same Go expression on "
-        "the recorded operands); the model replays the step and must reproduce all 33 control fields plus GetCongestionWindow, "
-        "bandwidthForPacer, CanSend(0) and leastUnacked",
-        "the bandwidth sampler, the windowed filters and IEEE float arithmetic are NOT modelled: their results are universally "
-        "quantified inputs (`Env`) of every theorem (over-approximation, sound for safety)",
-        "int64/uint64 arithmetic does not overflow (byte counters of one connection < 2^62, bandwidth x idle time < 2^63 in the pacer)",
+        "Hy.Model.BbrSampler (bandwidth_sampler.go + windowed_filter.go, with Go's wrapping int64/uint64 arithmetic and truncating "
+        "divisions; the one float expression threshold*float64(x) with threshold in {1,2}, |x| < 2^31 is an exact integer product) and "
+        "the sender's max-bandwidth filter are tied to the code by an EXACT differential inside the bbr stream: after every call the "
+        "model's sampler state (byte totals, last acked/sent packet state, app-limited flag and end marker, slots / firstPacket / present "
+        "entries of the packet map, number of A0 candidates, recent ack points, aggregation epoch, the three ack-height estimates, the "
+        "three max-bandwidth estimates) and the sample returned for the event (obtained from the real sampler by running the real "
+        "OnCongestionEvent on a copy taken just before the call) are compared with the implementation's",
+        "Hy.Model.BbrCore is tied to bbr_sender.go by trace validation with the sampler COMPUTED by the model; only rttStats.MinRTT() and "
+        "the float-scaled values are recorded from the implementation (getTargetCongestionWindow(gain) via the real method; gain*bw, "
+        "bw*1.25, inflight*0.02, the maybeAppLimited decision and the float->int64 conversion of the pacing rate by the same Go expression "
+        "on the recorded operands); the model must reproduce all 33 control fields plus GetCongestionWindow, bandwidthForPacer, CanSend(0) "
+        "and leastUnacked.  On the long fat-path traces (stream bbrfat, 20000 packets in flight) the sampler outputs are recorded as well",
+        "IEEE float arithmetic is NOT modelled: float-scaled results are universally quantified inputs (`Env`) of every theorem of layer "
+        "(b) (over-approximation, sound for safety); the theorems of layer (b) also quantify over all sampler outputs",
+        "control logic (layer b) and pacer: int64/uint64 arithmetic does not overflow (byte counters of one connection < 2^62, bandwidth x "
+        "idle time < 2^63 in the pacer); the sampler model (layer c) wraps exactly as Go does",
         "QUIC-consistency is pinned to quic-go's sent_packet_handler.go: OnCongestionEventEx only with a non-empty acked U lost set; "
         "datagram size non-decreasing; SetRTTStatsProvider called at installation; MinRTT() != 0 once a bandwidth sample exists "
         "(hysteria installs the controller after the handshake; RTTStats.minRTT is never reset to 0); the seed datagram size is "
@@ -121,7 +143,9 @@ CFG = {
         "the gain comparisons `pacingGain > 1` / `< 1` are decided on the symbolic gain (highGain > 1 > 1/highGain for the three "
         "profiles: obligation profiles_high_gain; table entries in hundredths)",
         "'does not settle far below capacity on a loss-free path' is a quantitative claim about a float-driven control loop: "
-        "no theorem is offered; delivered/capacity per profile is reported as supporting evidence only",
+        "no theorem is offered; it is covered by supporting evidence (delivered/capacity per profile) + model-free stall oracles on the "
+        "simulator (PROBE_RTT dwell bound, goodput floor 0.3, no deadlock); every 25th trace is a loss-free slow path with ack "
+        "aggregation / delayed acks run for > 12 simulated seconds so that PROBE_RTT is entered and must be left",
     ],
 }
 
@@ -137,9 +161,14 @@ MANIFEST = {
             "announced wake-up time grants a full datagram — with the sampler's outputs and all float-scaled quantities as "
             "arbitrary inputs. Tied to the source by regenerated constants + panic-site counts, an exact differential on the "
             "containers, and trace validation of the sender on ~300 (quick) / 20 000 (thorough) simulated connections with "
-            "model-free oracles on the real code after every call.",
+            "model-free oracles on the real code after every call. Layer (c): exact executable model of the bandwidth sampler and the "
+            "windowed filters (wrapping integer arithmetic), compared field by field with the real sampler after every call; theorems: the "
+            "sampler never panics for any call sequence with packet numbers >= -1 and int64 times, its per-packet bandwidth sample is "
+            "min(send rate, ack rate) <= send rate, its entries are bounded through the queue theorem after RemoveObsoletePackets, and the "
+            "windowed filter's best estimate is a fed sample that dominates every later sample and is never older than the window (it is "
+            "NOT the exact window maximum: decide-checked counterexample).",
     "note": "Trusted: Lean kernel (+leanchecker), axioms propext/Quot.sound/Classical.choice at most; the Go harness (simulator, "
-            "sampler-copy replay) and hydrv; sampler/filters/floats are inputs, not modelled; no int64 overflow. NOT proved: "
+            "sampler-copy replay) and hydrv; floats are inputs, not modelled; no int64 overflow in the control logic. NOT proved: "
             "'does not settle far below capacity' (delivered/capacity per profile reported as supporting evidence only); "
             "a0Candidates growth (measured). Residual risk: the implementation differs from the model on a trace the simulator "
             "did not draw.",
